@@ -947,6 +947,18 @@ func (fx *FnExec) atCallAsserts(in ssa.Instruction, c *ssa.CallCommon, args []Va
 		name = calleeName(f)
 	} else if c.IsInvoke() {
 		name = namedTypeName(c.Value.Type()) + "." + c.Method.Name()
+	} else if sig, ok := c.Value.Type().Underlying().(*types.Signature); ok {
+		// call of a function value: named by its parameter types, dyn(T1,T2)
+		var ps []string
+		for i := 0; i < sig.Params().Len(); i++ {
+			ps = append(ps, types.TypeString(sig.Params().At(i).Type(), func(p *types.Package) string {
+				if p == fx.W.Pkg.Pkg {
+					return ""
+				}
+				return p.Name()
+			}))
+		}
+		name = "dyn(" + strings.Join(ps, ",") + ")"
 	}
 	for k, ac := range fx.C.AtCall {
 		if ac.Callee != name {
